@@ -180,6 +180,9 @@ def check(ctx):
                 if not g.dominates(e.id, n.id):
                     continue
                 c2, p2 = unwrap_not(c, pol)
+                if is_call(strip(c2), 'isinstance', 'type') or (
+                        isinstance(strip(c2), Cmp) and is_call(strip(strip(c2).left), 'type')):
+                    continue      # routing by the kind of an event object, not a test
                 if has_strptime(c2) or contains(c2, lambda x: isinstance(x, Call) and (
                         x.fn in ('os.stat', 'os.path.exists', 'os.path.lexists',
                                  'os.path.getsize', 'datetime.timedelta'))):
